@@ -122,6 +122,8 @@ type Bridge struct {
 	n    atomic.Int64
 	// Forwarded counts calls to Handle (what the "request handler" customisation saw).
 	Forwarded atomic.Int64
+	// HandedDead counts the requests handed over under a context that had already ended (nothing is sent for those).
+	HandedDead atomic.Int64
 	open      atomic.Int64
 }
 
@@ -236,6 +238,7 @@ func (b *Bridge) Handle(ctx context.Context, _ *http.Client, req *http.Request) 
 		sr.CtxVal = ctx.Value(b.CtxKey)
 	}
 	if err := ctx.Err(); err != nil {
+		b.HandedDead.Add(1)
 		return nil, err
 	}
 	// net/http's transport refuses to send a header value with control characters; so does the bridge
